@@ -25,11 +25,16 @@ mod subrange;
 #[cfg(kani)]
 mod reloc;
 #[cfg(kani)]
+mod relocparse;
+#[cfg(kani)]
 mod wprim;
 #[cfg(kani)]
 mod uctx;
 #[cfg(kani)]
 mod ehhdr;
 /// K-LINEGEN: `include!`s src/gen/linegen_items.rs, regenerated from /repo by `python3 kani/gen_linegen.py` (gitignored)
-#[cfg(kani)]
+#[cfg(all(kani, feature = "linegen"))]
 mod linegen;
+/// K-EXPRW: `include!`s src/gen/exprw_items.rs, regenerated from /repo by `python3 kani/gen_exprw.py` (gitignored)
+#[cfg(all(kani, feature = "exprw"))]
+mod exprw;
